@@ -246,6 +246,8 @@ Proof.
   - change (identical (S f) x y) with (identical_step (identical f) x y).
     destruct x, y; try (simpl; discriminate);
       rewrite ?size_tuple, ?size_sig, ?size_struct, ?size_iface in H; simpl in H |- *.
+    + apply IH; lia.
+    + apply IH; lia.
     + destruct (len =? len0)%Z; [apply IH; lia | discriminate].
     + apply andthen_total; apply IH; lia.
     + destruct (dir =? dir0)%Z; [apply IH; lia | discriminate].
@@ -268,4 +270,114 @@ Proof.
           rewrite ?size_iface; lia.
       * apply IH. rewrite !size_tuple. lia.
       * apply IH. rewrite !size_tuple. lia.
+Qed.
+
+(* ------------------------------------------------------------ reflexivity (never "false" on equal terms) *)
+Lemma identical_refl_nf f : forall x, identical f x x <> Some false.
+Proof.
+  induction f as [|f IH]; [discriminate|]. intros x.
+  change (identical (S f) x x) with (identical_step (identical f) x x).
+  destruct x; simpl; try discriminate; auto.
+  - rewrite Z.eqb_refl. discriminate.
+  - rewrite N.eqb_refl. discriminate.
+  - rewrite Z.eqb_refl. auto.
+  - apply andthen_nf; auto.
+  - rewrite Z.eqb_refl. auto.
+  - rewrite Nat.eqb_refl. apply loop2_nf. apply Forall2_refl'. auto.
+  - rewrite eqb_reflx. repeat apply andthen_nf; auto. destruct recv; simpl; auto. discriminate.
+  - rewrite Nat.eqb_refl. apply loop2_nf. apply Forall2_refl'. intros p _.
+    unfold field_identical. rewrite finfo_ok_refl. auto.
+  - rewrite !Nat.eqb_refl. simpl. apply andthen_nf.
+    + apply loop2_nf. apply Forall2_refl'. intros m _. unfold meth_identical.
+      rewrite same_name_refl, eqb_reflx. repeat apply andthen_nf; auto.
+      destruct (mrecv m); simpl; auto. discriminate.
+    + assert (E : embs_loop embs embs = true) by (apply embs_loop_eq; auto). rewrite E. discriminate.
+Qed.
+
+(* ------------------------------------------------------------ transitivity *)
+Lemma identical_trans_nf f : forall f1 f2 x y z,
+  identical f1 x y = Some true -> identical f2 y z = Some true -> identical f x z <> Some false.
+Proof.
+  induction f as [|f IH]; [discriminate|]. intros [|f1] [|f2] x y z W1 W2; try discriminate.
+  pose proof W1 as H1. pose proof W2 as H2.
+  change (identical (S f1) x y) with (identical_step (identical f1) x y) in H1.
+  change (identical (S f2) y z) with (identical_step (identical f2) y z) in H2.
+  change (identical (S f) x z) with (identical_step (identical f) x z).
+  destruct x, y; simpl in H1; try discriminate; destruct z; simpl in H2; try discriminate; simpl.
+  - inversion H1 as [A]. inversion H2 as [B]. apply Z.eqb_eq in A, B. subst. rewrite Z.eqb_refl. discriminate.
+  - inversion H1 as [A]. inversion H2 as [B]. apply N.eqb_eq in A, B. subst. rewrite N.eqb_refl. discriminate.
+  - eauto.
+  - eauto.
+  - apply if_true in H1 as [A H1]. apply if_true in H2 as [B H2]. apply Z.eqb_eq in A, B. subst.
+    rewrite Z.eqb_refl. eauto.
+  - apply andthen_true in H1 as [A1 A2]. apply andthen_true in H2 as [B1 B2]. apply andthen_nf; eauto.
+  - apply if_true in H1 as [A H1]. apply if_true in H2 as [B H2]. apply Z.eqb_eq in A, B. subst.
+    rewrite Z.eqb_refl. eauto.
+  - apply if_true in H1 as [A H1]. apply if_true in H2 as [B H2]. apply Nat.eqb_eq in A, B.
+    replace (Nat.eqb (length l) (length l1)) with true by (symmetry; apply Nat.eqb_eq; congruence).
+    unfold tuple_loop in *. apply loop2_true in H1; auto. apply loop2_true in H2; auto.
+    apply loop2_nf. eapply Forall2_trans'; [|exact H1|exact H2]. simpl. eauto.
+  - apply if_true in H1 as [A H1]. apply if_true in H2 as [B H2]. rewrite eqb_true_iff in A, B. subst.
+    rewrite eqb_reflx.
+    apply andthen_true in H1 as [A1 H1]. apply andthen_true in H1 as [A2 A3].
+    apply andthen_true in H2 as [B1 H2]. apply andthen_true in H2 as [B2 B3].
+    repeat apply andthen_nf; eauto.
+    destruct recv, recv0, recv1; simpl in *; try discriminate; eauto.
+  - apply if_true in H1 as [A H1]. apply if_true in H2 as [B H2]. apply Nat.eqb_eq in A, B.
+    replace (Nat.eqb (length fs) (length fs1)) with true by (symmetry; apply Nat.eqb_eq; congruence).
+    unfold fields_loop in *. apply loop2_true in H1; auto. apply loop2_true in H2; auto.
+    apply loop2_nf. eapply Forall2_trans'; [|exact H1|exact H2]. simpl.
+    intros p q r P Q. unfold field_identical in *. apply if_true in P as [P1 P2]. apply if_true in Q as [Q1 Q2].
+    rewrite (finfo_ok_trans _ _ _ P1 Q1). eauto.
+  - apply if_true in H1 as [A H1]. apply if_true in H2 as [B H2].
+    apply andb_true_iff in A as [A1 A2]. apply andb_true_iff in B as [B1 B2]. apply Nat.eqb_eq in A1, A2, B1, B2.
+    replace (Nat.eqb (length ms) (length ms1)) with true by (symmetry; apply Nat.eqb_eq; congruence).
+    replace (Nat.eqb (length embs) (length embs1)) with true by (symmetry; apply Nat.eqb_eq; congruence).
+    simpl.
+    apply andthen_true in H1 as [M1 E1]. apply andthen_true in H2 as [M2 E2].
+    inversion E1 as [E1']. inversion E2 as [E2']. apply embs_loop_eq in E1', E2'; auto. subst.
+    apply andthen_nf.
+    + unfold methods_loop in *. apply loop2_true in M1; auto. apply loop2_true in M2; auto.
+      apply loop2_nf. eapply Forall2_trans'; [|exact M1|exact M2]. simpl.
+      intros m n o P Q. unfold meth_identical in *.
+      apply if_true in P as [P1 P]. apply if_true in P as [P2 P].
+      apply if_true in Q as [Q1 Q]. apply if_true in Q as [Q2 Q].
+      rewrite (same_name_trans _ _ _ _ _ _ P1 Q1). rewrite eqb_true_iff in P2, Q2. rewrite P2, Q2, eqb_reflx.
+      apply andthen_true in P as [P3 P]. apply andthen_true in P as [P4 P5].
+      apply andthen_true in Q as [Q3 Q]. apply andthen_true in Q as [Q4 Q5].
+      repeat apply andthen_nf; eauto.
+      destruct (mrecv m), (mrecv n), (mrecv o); simpl in *; try discriminate; eauto.
+    + assert (E : embs_loop embs1 embs1 = true) by (apply embs_loop_eq; auto). rewrite E. discriminate.
+Qed.
+
+(* ------------------------------------------------------------ the total, fuel-free predicate *)
+Lemma ident_some x y : exists b, ident x y = Some b.
+Proof.
+  unfold ident. destruct (identical (size x + size y) x y) eqn:E; eauto.
+  exfalso. eapply identical_total; [|exact E]. lia.
+Qed.
+
+Lemma ident_fuel f x y : (size x + size y <= f)%nat -> identical f x y = ident x y.
+Proof.
+  intros H. destruct (ident_some x y) as [b E]. rewrite E. eapply identical_mono_le; eauto.
+Qed.
+
+Lemma identb_true x y : identb x y = true <-> ident x y = Some true.
+Proof. unfold identb. destruct (ident x y) as [[|]|]; split; congruence. Qed.
+
+Lemma identb_refl x : identb x x = true.
+Proof.
+  apply identb_true. destruct (ident_some x x) as [[|] E]; auto.
+  exfalso. eapply identical_refl_nf. exact E.
+Qed.
+
+Lemma identb_sym x y : identb x y = true -> identb y x = true.
+Proof.
+  rewrite !identb_true. unfold ident. intros H. rewrite Nat.add_comm. apply identical_sym. exact H.
+Qed.
+
+Lemma identb_trans x y z : identb x y = true -> identb y z = true -> identb x z = true.
+Proof.
+  rewrite !identb_true. intros H1 H2. destruct (ident_some x z) as [[|] E]; auto.
+  exfalso. eapply identical_trans_nf; [exact H1|exact H2|exact E].
 Qed.
